@@ -33,7 +33,7 @@ EDGE_OK = [1e-300, 5e-324, 1 - 2 ** -53, 0.9999999999999999, 0.5, 1e-9]
 
 
 def n_fixed(tier):
-    return 2
+    return 3
 
 
 def fixed_specs(tier, ctx):
@@ -57,8 +57,14 @@ def fixed_specs(tier, ctx):
     for m in (1, 1022, 1023, 1024, 100000):
         opl.append({"op": "gen_cli", "params": dict(base, max_reward=m)})
         opl.append({"op": "board", "params": dict(base, max_reward=m)})
+    # range soak: millions of tiles at the smallest maximum rewards (absolute check only, no reference call)
+    n_boards = 3000 if tier == "quick" else 12000
+    soak = [{"op": "board_range", "params": dict(base, seed=50000 + i, width=40, length=40, lt=0.3,
+                                                 max_reward=(1, 1, 1, 2, 3)[i % 5], force_down=bool(i % 2))}
+            for i in range(n_boards)]
     return [{"cfg": {"klass": "boundaries"}, "ops": opl},
-            {"cfg": {"klass": "boundaries-python-OO", "optimize": 2}, "ops": opl}]
+            {"cfg": {"klass": "boundaries-python-OO", "optimize": 2}, "ops": opl},
+            {"cfg": {"klass": "range-soak"}, "ops": soak}]
 
 
 def _bparams(rng):
@@ -235,7 +241,16 @@ def execute(spec, w, ctx):
             continue
         p = op["params"]
         key = canon(p)
-        if kind == "board":
+        if kind == "board_range":
+            out = ops.board(w, p, {})
+            if out["status"] != "ok":
+                v = viol("I15.1", i_op, "gen_rnd_board(%s) did not return: %s" % (_pp(p), genops.show(out)), "board-crashed")
+            else:
+                cb = check_board(p, out["value"])
+                if cb is not None:
+                    v = viol("I15.1", i_op, "gen_rnd_board(%s): %s" % (_pp(p), cb[1]), cb[0])
+                w.probe("tiles-range-checked", p["width"] * p["length"])
+        elif kind == "board":
             out = ops.board(w, p, common.env_cfg(op))
             r = ctx.ref.call("board", {"params": p}, key=("board", key))
             events.append([i_op, "board", out["status"], h(canon(out.get("value"))) if out["status"] == "ok" else out.get("etype")])
